@@ -238,6 +238,10 @@ def dstep (d : DState) : List String → DState × String
     | some n, some dn, some a, some nm, some vo =>
       doOp d (.patchDev { name := n, displayName := dn, adminPw := a, normalPw := nm, viewonlyPw := vo })
     | _, _, _, _, _ => (d, "bad-op")
+  | ["devput", n, dn] =>
+    match parseOptStr n, parseOptStr dn with
+    | some n, some dn => doOp d (.putDev n dn)
+    | _, _ => (d, "bad-op")
   | "sput" :: ws =>
     match ws.mapM parseSlave with
     | some l => doOp d (.putSlaves l)
